@@ -1,21 +1,850 @@
 /-
 C16 — Genbank annotations define the same problem as the Python API.
-Theorems about Model/Label.lean and the generated registry (Gen/Tables.lean).
+Theorems about Model/Label.lean (the label grammar as `from_label` parses it) and the registry generated
+from the source (Gen/Tables.lean).  Main results: `parse_render` (parse ∘ render = id for every abstract
+label over the documented token alphabet, `:` or `=`), `parse_joined` (`&` lists), `fromLabel_surrounded`
+(blanks), `formatAtom_*` (value typing), `registry_shorthands`, `fromFeatures_*` (record collection order).
 -/
 import DnaModel.Model.Label
 import DnaModel.Gen.Tables
+import Mathlib.Data.List.Forall2
+
 set_option linter.unusedVariables false
 set_option linter.unusedSimpArgs false
 
 namespace Dna.C16
 open Dna Dna.Label
 
-/-- the documented shorthands resolve to the documented classes, in the registry generated from the source -/
+/-! ### splitting -/
+
+theorem splitChar_none (sep : Char) (s : Str) (h : sep ∉ s) : splitChar sep s = [s] := by
+  induction s with
+  | nil => rfl
+  | cons c cs ih =>
+    have hc : c ≠ sep := fun e => h (by simp [e])
+    have := ih (fun m => h (by simp [m]))
+    simp [splitChar, hc, this, consHead]
+
+theorem splitChar_append (sep : Char) (a b : Str) (h : sep ∉ a) :
+    splitChar sep (a ++ sep :: b) = a :: splitChar sep b := by
+  induction a with
+  | nil => simp [splitChar]
+  | cons c cs ih =>
+    have hc : c ≠ sep := fun e => h (by simp [e])
+    have := ih (fun m => h (by simp [m]))
+    simp [splitChar, hc, this, consHead]
+
+/-- `sep.join(parts)` for a one-character separator -/
+def joinChar (sep : Char) : List Str → Str
+  | [] => []
+  | [t] => t
+  | t :: ts => t ++ sep :: joinChar sep ts
+
+theorem splitChar_joinChar (sep : Char) (parts : List Str) (hne : parts ≠ []) (h : ∀ p ∈ parts, sep ∉ p) :
+    splitChar sep (joinChar sep parts) = parts := by
+  induction parts with
+  | nil => exact absurd rfl hne
+  | cons t ts ih =>
+    cases ts with
+    | nil => simpa [joinChar] using splitChar_none sep t (h t (by simp))
+    | cons u us =>
+      have := ih (by simp) (fun p hp => h p (by simp [hp]))
+      simp only [joinChar] at this ⊢
+      rw [splitChar_append sep t _ (h t (by simp)), this]
+
+theorem splitCS_none (s : Str) (h : ',' ∉ s) : splitCS s = [s] := by
+  induction s with
+  | nil => rfl
+  | cons c cs ih =>
+    have hc : c ≠ ',' := fun e => h (by simp [e])
+    have := ih (fun m => h (by simp [m]))
+    cases cs with
+    | nil => simp [splitCS]
+    | cons d ds => simp [splitCS, hc, this, consHead]
+
+theorem splitCS_append (a b : Str) (h : ',' ∉ a) : splitCS (a ++ ',' :: ' ' :: b) = a :: splitCS b := by
+  induction a with
+  | nil => simp [splitCS]
+  | cons c cs ih =>
+    have hc : c ≠ ',' := fun e => h (by simp [e])
+    have := ih (fun m => h (by simp [m]))
+    cases hcs : cs ++ ',' :: ' ' :: b with
+    | nil => simp at hcs
+    | cons d ds =>
+      rw [hcs] at this
+      simp [splitCS, hc, this, consHead, hcs]
+
+/-- `", ".join(parts)` -/
+def joinCS : List Str → Str
+  | [] => []
+  | [t] => t
+  | t :: ts => t ++ ',' :: ' ' :: joinCS ts
+
+theorem splitCS_joinCS (parts : List Str) (hne : parts ≠ []) (h : ∀ p ∈ parts, ',' ∉ p) :
+    splitCS (joinCS parts) = parts := by
+  induction parts with
+  | nil => exact absurd rfl hne
+  | cons t ts ih =>
+    cases ts with
+    | nil => simpa [joinCS] using splitCS_none t (h t (by simp))
+    | cons u us =>
+      have := ih (by simp) (fun p hp => h p (by simp [hp]))
+      simp only [joinCS] at this ⊢
+      rw [splitCS_append t _ (h t (by simp)), this]
+
+
+/-! ### integers -/
+
+def digitChar (d : Nat) : Char := Char.ofNat (d + 48)
+
+theorem digitChar_spec : ∀ d, d < 10 → (digitChar d).isDigit = true ∧ digitVal (digitChar d) = d ∧ isSpace (digitChar d) = false ∧
+    digitChar d ≠ '\'' ∧ digitChar d ≠ '+' ∧ digitChar d ≠ '-' := by decide
+
+def renderNat (n : Nat) : Str :=
+  if h : n < 10 then [digitChar n] else renderNat (n / 10) ++ [digitChar (n % 10)]
+termination_by n
+decreasing_by omega
+
+def renderInt (n : Int) : Str :=
+  match n with
+  | .ofNat m => renderNat m
+  | .negSucc m => '-' :: renderNat (m + 1)
+
+def numVal (acc : Nat) (xs : Str) : Nat := xs.foldl (fun a c => a * 10 + digitVal c) acc
+
+theorem digitPart_digits (xs : Str) (acc : Nat) (prev : Bool) (hd : ∀ c ∈ xs, c.isDigit = true) (hne : xs ≠ [] ∨ prev = true) :
+    digitPart acc prev xs = some (numVal acc xs) := by
+  induction xs generalizing acc prev with
+  | nil => cases hne with
+    | inl h => exact absurd rfl h
+    | inr h => simp [digitPart, h, numVal]
+  | cons c cs ih =>
+    have hc := hd c (by simp)
+    simp only [digitPart, hc, if_true, numVal, List.foldl_cons]
+    exact ih _ true (fun d hd' => hd d (by simp [hd'])) (Or.inr rfl)
+
+theorem renderNat_digits (n : Nat) : (∀ c ∈ renderNat n, c.isDigit = true) ∧ renderNat n ≠ [] ∧ numVal 0 (renderNat n) = n := by
+  induction n using Nat.strongRecOn with
+  | _ n ih =>
+    rw [renderNat]
+    split
+    · rename_i h
+      have := digitChar_spec n h
+      refine ⟨by simpa using this.1, by simp, by simp [numVal, this.2.1]⟩
+    · rename_i h
+      have hr := ih (n / 10) (by omega)
+      have hd := digitChar_spec (n % 10) (by omega)
+      refine ⟨?_, by simp, ?_⟩
+      · intro c hc
+        rcases List.mem_append.1 hc with h1 | h1
+        · exact hr.1 c h1
+        · simp at h1; rw [h1]; exact hd.1
+      · simp only [numVal, List.foldl_append, List.foldl_cons, List.foldl_nil] at hr ⊢
+        rw [hr.2.2, hd.2.1]; omega
+
+theorem head_not_space_lstrip (c : Char) (cs : Str) (h : isSpace c = false) : lstrip (c :: cs) = c :: cs := by
+  simp [lstrip, List.dropWhile, h]
+
+theorem last_not_space_rstrip (s : Str) (c : Char) (h : isSpace c = false) : rstrip (s ++ [c]) = s ++ [c] := by
+  simp [rstrip, List.dropWhile, h]
+
+theorem strip_id (s : Str) (hne : s ≠ []) (hh : ∀ c, s.head? = some c → isSpace c = false) (hl : ∀ c, s.getLast? = some c → isSpace c = false) :
+    strip s = s := by
+  cases s with
+  | nil => exact absurd rfl hne
+  | cons c cs =>
+    have h1 : lstrip (c :: cs) = c :: cs := head_not_space_lstrip c cs (hh c rfl)
+    rw [strip, h1]
+    obtain ⟨init, last, hil⟩ : ∃ init last, c :: cs = init ++ [last] := by
+      refine ⟨(c :: cs).dropLast, (c :: cs).getLast (by simp), ?_⟩
+      exact (List.dropLast_concat_getLast (by simp)).symm
+    rw [hil] at hl ⊢
+    exact last_not_space_rstrip init last (hl last (by simp))
+
+theorem digits_no_space (xs : Str) (hd : ∀ c ∈ xs, c.isDigit = true) : ∀ c ∈ xs, isSpace c = false := by
+  intro c hc
+  have := hd c hc
+  simp only [Char.isDigit, Bool.and_eq_true, decide_eq_true_eq] at this
+  simp only [isSpace, Bool.or_eq_false_iff, beq_eq_false_iff_ne, ne_eq]
+  have h48 : c.val ≥ 48 := this.1
+  refine ⟨⟨⟨⟨⟨⟨⟨⟨⟨?_, ?_⟩, ?_⟩, ?_⟩, ?_⟩, ?_⟩, ?_⟩, ?_⟩, ?_⟩, ?_⟩ <;> (intro e; rw [e] at h48; revert h48; decide)
+
+theorem strip_digits (xs : Str) (hd : ∀ c ∈ xs, c.isDigit = true) (hne : xs ≠ []) : strip xs = xs := by
+  apply strip_id xs hne
+  · intro c hc; exact digits_no_space xs hd c (List.mem_of_mem_head? hc)
+  · intro c hc; exact digits_no_space xs hd c (List.mem_of_mem_getLast? hc)
+
+theorem pyInt_renderInt (n : Int) : pyInt? (renderInt n) = some n := by
+  cases n with
+  | ofNat m =>
+    obtain ⟨hd, hne, hv⟩ := renderNat_digits m
+    simp only [renderInt, pyInt?]
+    rw [strip_digits _ hd hne]
+    cases hr : renderNat m with
+    | nil => exact absurd hr hne
+    | cons c cs =>
+      have hc : c.isDigit = true := hd c (by simp [hr])
+      have h1 : c ≠ '+' := by intro e; rw [e] at hc; revert hc; decide
+      have h2 : c ≠ '-' := by intro e; rw [e] at hc; revert hc; decide
+      have : digitPart 0 false (c :: cs) = some m := by
+        rw [← hr, digitPart_digits _ 0 false hd (Or.inl hne), hv]
+      split
+      · rename_i r heq; simp at heq; exact absurd heq.1 h1
+      · rename_i r heq; simp at heq; exact absurd heq.1 h2
+      · simp [this]
+  | negSucc m =>
+    obtain ⟨hd, hne, hv⟩ := renderNat_digits (m + 1)
+    simp only [renderInt, pyInt?]
+    have hs : strip ('-' :: renderNat (m + 1)) = '-' :: renderNat (m + 1) := by
+      apply strip_id _ (by simp)
+      · intro c hc; simp at hc; rw [← hc]; decide
+      · intro c hc
+        rw [List.getLast?_cons_of_ne_nil hne] at hc  
+        exact digits_no_space _ hd c (List.mem_of_mem_getLast? hc)
+    rw [hs]
+    simp [digitPart_digits _ 0 false hd (Or.inl hne), hv, Int.negSucc_eq]
+
+theorem quoted_renderInt (n : Int) : quoted? (renderInt n) = none := by
+  cases n with
+  | ofNat m =>
+    obtain ⟨hd, hne, _⟩ := renderNat_digits m
+    simp only [renderInt]
+    cases hr : renderNat m with
+    | nil => exact absurd hr hne
+    | cons c cs =>
+      have hc : c.isDigit = true := hd c (by simp [hr])
+      have h1 : c ≠ '\'' := by intro e; rw [e] at hc; revert hc; decide
+      simp only [quoted?]
+      split
+      · rename_i r heq; simp at heq; exact absurd heq.1 h1
+      · rfl
+  | negSucc m => simp [renderInt, quoted?]
+
+/-- an integer written in decimal is read back as that integer -/
+theorem formatAtom_renderInt (n : Int) : formatAtom (renderInt n) = .int n := by
+  simp [formatAtom, quoted_renderInt, pyInt_renderInt]
+
+
+theorem dropWhile_all {α} (p : α → Bool) (a b : List α) (h : ∀ x ∈ a, p x = true) : (a ++ b).dropWhile p = b.dropWhile p := by
+  induction a with
+  | nil => rfl
+  | cons x xs ih => simp [List.dropWhile, h x (by simp), ih (fun y hy => h y (by simp [hy]))]
+
+/-- a quoted token yields its content, whatever it is -/
+theorem quoted_quote (s : Str) : quoted? ('\'' :: s ++ ['\'']) = some s := by
+  simp [quoted?, List.dropWhile]
+
+theorem formatAtom_quoted (s : Str) : formatAtom ('\'' :: s ++ ['\'']) = .str s := by
+  have := quoted_quote s
+  simp only [formatAtom]
+  rw [this]
+
+/-- sufficient syntactic condition for a bare token to stay a string -/
+theorem formatAtom_bare (s : Str) (hq : s.head? ≠ some '\'')
+    (h : ∀ c, (strip s).head? = some c →
+      c.isDigit = false ∧ c ≠ '+' ∧ c ≠ '-' ∧ c ≠ '.' ∧ c.toLower ≠ 'i' ∧ c.toLower ≠ 'n') :
+    formatAtom s = .str s := by
+  have hquo : quoted? s = none := by
+    cases s with
+    | nil => rfl
+    | cons c cs =>
+      have : c ≠ '\'' := fun e => hq (by simp [e])
+      simp only [quoted?]
+      split
+      · rename_i r heq; simp at heq; exact absurd heq.1 this
+      · rfl
+  have hint : pyInt? s = none := by
+    simp only [pyInt?]
+    cases ht : strip s with
+    | nil => simp [digitPart]
+    | cons c cs =>
+      obtain ⟨hd, h1, h2, _⟩ := h c (by simp [ht])
+      split
+      · rename_i r heq; simp at heq; exact absurd heq.1 h1
+      · rename_i r heq; simp at heq; exact absurd heq.1 h2
+      · simp [digitPart, hd]
+  have hfl : pyFloatOk s = false := by
+    simp only [pyFloatOk]
+    cases ht : strip s with
+    | nil => simp [dropSign, isInfNan, floatBody, lower, dropDigitPart]
+    | cons c cs =>
+      obtain ⟨hd, h1, h2, h3, h4, h5⟩ := h c (by simp [ht])
+      have hsign : dropSign (c :: cs) = c :: cs := by
+        unfold dropSign
+        split
+        · rename_i r heq; simp at heq; exact absurd heq.1 h1
+        · rename_i r heq; simp at heq; exact absurd heq.1 h2
+        · rfl
+      rw [hsign]
+      have hl : isInfNan (c :: cs) = false := by
+        simp only [isInfNan, lower, List.map_cons, Bool.or_eq_false_iff, beq_eq_false_iff_ne, ne_eq]
+        refine ⟨⟨?_, ?_⟩, ?_⟩ <;> (intro e; simp at e; first | exact h4 e.1 | exact h5 e.1)
+      simp only [hl, Bool.false_eq_true, if_false]
+      unfold floatBody
+      split
+      · rename_i r heq; simp at heq; exact absurd heq.1 h3
+      · simp [dropDigitPart, hd]
+  simp [formatAtom, hquo, hint, hfl]
+
+
+/-! ### abstract labels and their rendering -/
+
+inductive AAtom where
+  | int (n : Int)
+  | float (t : Str)
+  | bare (s : Str)
+  | quoted (s : Str)
+
+def AAtom.render : AAtom → Str
+  | .int n => renderInt n
+  | .float t => t
+  | .bare s => s
+  | .quoted s => '\'' :: s ++ ['\'']
+
+def AAtom.val : AAtom → Atom
+  | .int n => .int n
+  | .float t => .float t
+  | .bare s => .str s
+  | .quoted s => .str s
+
+inductive AVal where
+  | atom (a : AAtom)
+  | list (as : List AAtom)
+
+def AVal.render : AVal → Str
+  | .atom a => a.render
+  | .list as => joinChar '|' (as.map AAtom.render)
+
+def AVal.val : AVal → Val
+  | .atom a => .atom a.val
+  | .list as => .list (as.map AAtom.val)
+
+/-- characters with a meaning in the label grammar (and what is outside the model's scope) -/
+def special (c : Char) : Bool :=
+  c == ',' || c == ':' || c == '=' || c == '|' || c == '(' || c == '&' || c == '\n' || decide (c.toNat ≥ 128)
+
+def Clean (s : Str) : Prop := ∀ c ∈ s, special c = false
+
+def AAtom.WF : AAtom → Prop
+  | .int _ => True
+  | .float t => Clean t ∧ t ≠ [] ∧ quoted? t = none ∧ pyInt? t = none ∧ pyFloatOk t = true
+  | .bare s => Clean s ∧ s ≠ [] ∧ formatAtom s = .str s
+  | .quoted s => Clean s
+
+def AVal.WF : AVal → Prop
+  | .atom a => a.WF
+  | .list as => 2 ≤ as.length ∧ ∀ a ∈ as, a.WF
+
+structure ALabel where
+  role : Role
+  name : Str
+  pos : List AAtom
+  kws : List (Str × AVal)
+
+def roleChar : Role → Char
+  | .constraint => '@'
+  | .objective => '~'
+
+def ALabel.args (sep : Char) (l : ALabel) : List Str :=
+  l.pos.map AAtom.render ++ l.kws.map (fun kv => kv.1 ++ sep :: kv.2.render)
+
+/-- the label text: `@name(p1, p2, k1:v1, k2:v2)` -/
+def ALabel.render (sep : Char) (l : ALabel) : Str :=
+  roleChar l.role :: (l.name ++ '(' :: (joinCS (l.args sep) ++ [')']))
+
+structure ALabel.WF (l : ALabel) : Prop where
+  name_ne : l.name ≠ []
+  name_clean : Clean l.name
+  name_nospace : ∀ c ∈ l.name, isSpace c = false
+  pos_wf : ∀ a ∈ l.pos, a.WF
+  key_ne : ∀ kv ∈ l.kws, kv.1 ≠ []
+  key_clean : ∀ kv ∈ l.kws, Clean kv.1
+  key_not_location : ∀ kv ∈ l.kws, kv.1 ≠ "location".toList
+  val_wf : ∀ kv ∈ l.kws, kv.2.WF
+  keys_nodup : (l.kws.map (·.1)).Pairwise (· ≠ ·)
+
+theorem digit_not_special (c : Char) (h : c.isDigit = true) : special c = false := by
+  simp only [Char.isDigit, Bool.and_eq_true, decide_eq_true_eq] at h
+  have h1 : c.val ≥ 48 := h.1
+  have h2 : c.val ≤ 57 := h.2
+  simp only [special, Bool.or_eq_false_iff, beq_eq_false_iff_ne, ne_eq, decide_eq_false_iff_not]
+  refine ⟨⟨⟨⟨⟨⟨⟨?_, ?_⟩, ?_⟩, ?_⟩, ?_⟩, ?_⟩, ?_⟩, ?_⟩
+  all_goals first
+    | (intro e; rw [e] at h1 h2; revert h1 h2; decide)
+    | (simp only [Char.toNat, Nat.not_le]; have : c.val.toNat ≤ 57 := by exact UInt32.le_iff_toNat_le.mp h2
+       omega)
+
+theorem renderInt_clean (n : Int) : Clean (renderInt n) ∧ renderInt n ≠ [] := by
+  cases n with
+  | ofNat m =>
+    obtain ⟨hd, hne, _⟩ := renderNat_digits m
+    exact ⟨fun c hc => digit_not_special c (hd c hc), hne⟩
+  | negSucc m =>
+    obtain ⟨hd, hne, _⟩ := renderNat_digits (m + 1)
+    refine ⟨?_, by simp [renderInt]⟩
+    intro c hc
+    simp only [renderInt, List.mem_cons] at hc
+    rcases hc with rfl | hc
+    · decide
+    · exact digit_not_special c (hd c hc)
+
+theorem AAtom.render_clean (a : AAtom) (h : a.WF) : Clean a.render ∧ a.render ≠ [] := by
+  cases a with
+  | int n => exact renderInt_clean n
+  | float t => exact ⟨h.1, h.2.1⟩
+  | bare s => exact ⟨h.1, h.2.1⟩
+  | quoted s =>
+    refine ⟨?_, by simp [AAtom.render]⟩
+    intro c hc
+    simp only [AAtom.render, List.mem_cons, List.mem_append, List.mem_singleton] at hc
+    rcases hc with (rfl | hc) | (rfl | hc)
+    · decide
+    · exact h c hc
+    · decide
+    · simp at hc
+
+theorem formatAtom_render (a : AAtom) (h : a.WF) : formatAtom a.render = a.val := by
+  cases a with
+  | int n => exact formatAtom_renderInt n
+  | float t =>
+    obtain ⟨_, _, hq, hi, hf⟩ := h
+    simp [AAtom.render, AAtom.val, formatAtom, hq, hi, hf]
+  | bare s => exact h.2.2
+  | quoted s => exact formatAtom_quoted s
+
+theorem clean_not (s : Str) (h : Clean s) (c : Char) (hc : special c = true) : c ∉ s := by
+  intro hm; have := h c hm; rw [this] at hc; exact absurd hc (by simp)
+
+theorem joinChar_mem (sep : Char) (parts : List Str) (c : Char) (hc : c ∈ joinChar sep parts) :
+    c = sep ∨ ∃ p ∈ parts, c ∈ p := by
+  induction parts with
+  | nil => simp [joinChar] at hc
+  | cons t ts ih =>
+    cases ts with
+    | nil => exact Or.inr ⟨t, by simp, by simpa [joinChar] using hc⟩
+    | cons u us =>
+      simp only [joinChar, List.mem_append, List.mem_cons] at hc
+      rcases hc with h | h | h
+      · exact Or.inr ⟨t, by simp, h⟩
+      · exact Or.inl h
+      · rcases ih (by simpa [joinChar] using h) with h' | ⟨p, hp, hcp⟩
+        · exact Or.inl h'
+        · exact Or.inr ⟨p, by simp [hp], hcp⟩
+
+theorem joinChar_contains (sep : Char) (parts : List Str) (h : 2 ≤ parts.length) : sep ∈ joinChar sep parts := by
+  match parts, h with
+  | t :: u :: us, _ => simp [joinChar]
+
+theorem formatKwValue_render (v : AVal) (h : v.WF) : formatKwValue v.render = v.val := by
+  cases v with
+  | atom a =>
+    have hc := (a.render_clean h).1
+    have : '|' ∉ a.render := clean_not _ hc '|' (by decide)
+    show formatKwValue a.render = .atom a.val
+    unfold formatKwValue
+    split
+    · rename_i hcon; exact absurd (by simpa using hcon) this
+    · rw [formatAtom_render a h]
+  | list as =>
+    obtain ⟨hlen, hall⟩ := h
+    have hin : '|' ∈ joinChar '|' (as.map AAtom.render) := joinChar_contains '|' _ (by simpa using hlen)
+    show formatKwValue (joinChar '|' (as.map AAtom.render)) = .list (as.map AAtom.val)
+    unfold formatKwValue
+    rw [if_pos (by simpa using hin)]
+    rw [splitChar_joinChar '|' _ (by intro e; simp at e; subst e; simp at hlen)]
+    · simp only [List.map_map]
+      congr 1
+      apply List.map_congr_left
+      intro a ha
+      exact formatAtom_render a (hall a ha)
+    · intro p hp
+      simp only [List.mem_map] at hp
+      obtain ⟨a, ha, rfl⟩ := hp
+      exact clean_not _ (a.render_clean (hall a ha)).1 '|' (by decide)
+
+theorem AVal.render_clean_except_bar (v : AVal) (h : v.WF) : ∀ c ∈ v.render, c = '|' ∨ special c = false := by
+  cases v with
+  | atom a => intro c hc; exact Or.inr ((a.render_clean h).1 c hc)
+  | list as =>
+    intro c hc
+    rcases joinChar_mem '|' _ c hc with h1 | ⟨p, hp, hcp⟩
+    · exact Or.inl h1
+    · simp only [List.mem_map] at hp
+      obtain ⟨a, ha, rfl⟩ := hp
+      exact Or.inr ((a.render_clean (h.2 a ha)).1 c hcp)
+
+theorem parseArg_pos (a : AAtom) (h : a.WF) : parseArg a.render = .ok (some (.pos a.val)) := by
+  obtain ⟨hc, hne⟩ := a.render_clean h
+  have h1 : ':' ∉ a.render := clean_not _ hc ':' (by decide)
+  have h2 : '=' ∉ a.render := clean_not _ hc '=' (by decide)
+  simp only [parseArg]
+  rw [if_neg (by simpa using hne), if_neg (by simpa using h1), if_neg (by simpa using h2), formatAtom_render a h]
+
+theorem parseArg_kw (sep : Char) (hsep : sep = ':' ∨ sep = '=') (k : Str) (v : AVal) (hk : Clean k) (hv : v.WF) :
+    parseArg (k ++ sep :: v.render) = .ok (some (.kw k v.val)) := by
+  have hvs : ∀ c, special c = true → c ≠ '|' → c ∉ v.render := by
+    intro c hc hb hm
+    rcases v.render_clean_except_bar hv c hm with h | h
+    · exact hb h
+    · rw [h] at hc; exact absurd hc (by simp)
+  have hsplit : ∀ s, (s = ':' ∨ s = '=') → s = sep → splitChar s (k ++ sep :: v.render) = [k, v.render] := by
+    intro s hs he
+    subst he
+    have hks : s ∉ k := clean_not _ hk s (by rcases hs with rfl | rfl <;> decide)
+    have hvs' : s ∉ v.render := hvs s (by rcases hs with rfl | rfl <;> decide) (by rcases hs with rfl | rfl <;> decide)
+    rw [splitChar_append s k _ hks, splitChar_none s _ hvs']
+  simp only [parseArg]
+  rw [if_neg (by simp)]
+  rcases hsep with rfl | rfl
+  · rw [if_pos (by simp)]
+    simp only [parseKw, hsplit ':' (Or.inl rfl) rfl, formatKwValue_render v hv]
+  · have hk1 : ':' ∉ k := clean_not _ hk ':' (by decide)
+    have hv1 : ':' ∉ v.render := hvs ':' (by decide) (by decide)
+    rw [if_neg (by simp [hk1, hv1]), if_pos (by simp)]
+    simp only [parseKw, hsplit '=' (Or.inr rfl) rfl, formatKwValue_render v hv]
+
+theorem parseArgs_all (toks : List Str) (items : List Arg) (h : List.Forall₂ (fun t i => parseArg t = .ok (some i)) toks items) :
+    parseArgs toks = .ok items := by
+  induction h with
+  | nil => rfl
+  | cons hh _ ih => simp [parseArgs, hh, ih, bind, Except.bind, pure, Except.pure]
+
+def ALabel.items (l : ALabel) : List Arg :=
+  l.pos.map (fun a => Arg.pos a.val) ++ l.kws.map (fun kv => Arg.kw kv.1 kv.2.val)
+
+theorem parseArgs_args (sep : Char) (hsep : sep = ':' ∨ sep = '=') (l : ALabel) (h : l.WF) :
+    parseArgs (l.args sep) = .ok l.items := by
+  apply parseArgs_all
+  simp only [ALabel.args, ALabel.items]
+  apply List.rel_append
+  · rw [List.forall₂_map_left_iff, List.forall₂_map_right_iff]
+    exact List.forall₂_same.2 (fun a ha => parseArg_pos a (h.pos_wf a ha))
+  · rw [List.forall₂_map_left_iff, List.forall₂_map_right_iff]
+    exact List.forall₂_same.2 (fun kv hkv => parseArg_kw sep hsep kv.1 kv.2 (h.key_clean kv hkv) (h.val_wf kv hkv))
+
+/-! ### positional / keyword separation -/
+
+theorem splitArgs_pos (pos : List Atom) (rest : List Arg) (ps : List Atom) (ks : List (Str × Val)) :
+    splitArgs (pos.map Arg.pos ++ rest) (ps, ks) = splitArgs rest (ps ++ pos, ks) := by
+  induction pos generalizing ps with
+  | nil => simp
+  | cons a as ih => simp [splitArgs, ih]
+
+theorem dictSet_fresh (d : List (Str × Val)) (k : Str) (v : Val) (h : ∀ e ∈ d, e.1 ≠ k) : dictSet d k v = d ++ [(k, v)] := by
+  simp only [dictSet]
+  rw [if_neg]
+  simp only [List.any_eq_true, beq_iff_eq, not_exists, not_and]
+  exact fun e he => h e he
+
+theorem splitArgs_kws (kws : List (Str × Val)) (ps : List Atom) (ks : List (Str × Val))
+    (hnd : (kws.map (·.1)).Pairwise (· ≠ ·)) (hdisj : ∀ e ∈ ks, ∀ kv ∈ kws, e.1 ≠ kv.1) :
+    splitArgs (kws.map (fun kv => Arg.kw kv.1 kv.2)) (ps, ks) = (ps, ks ++ kws) := by
+  induction kws generalizing ks with
+  | nil => simp [splitArgs]
+  | cons kv rest ih =>
+    simp only [List.map_cons, splitArgs]
+    rw [dictSet_fresh ks kv.1 kv.2 (fun e he => hdisj e he kv (by simp))]
+    simp only [List.map_cons, List.pairwise_cons] at hnd
+    rw [ih (ks ++ [(kv.1, kv.2)]) hnd.2]
+    · simp
+    · intro e he kv' hkv'
+      rcases List.mem_append.1 he with h | h
+      · exact hdisj e h kv' (by simp [hkv'])
+      · simp at h; subst h; exact hnd.1 kv'.1 (List.mem_map_of_mem hkv')
+
+/-! ### lexing -/
+
+def Plain (c : Char) : Prop := c ≠ ',' ∧ c ≠ '(' ∧ c ≠ '&' ∧ c ≠ '\n' ∧ c.toNat < 128
+
+theorem plain_of_not_special (c : Char) (h : special c = false) : Plain c := by
+  simp only [special, Bool.or_eq_false_iff, beq_eq_false_iff_ne, ne_eq, decide_eq_false_iff_not, Nat.not_le] at h
+  exact ⟨h.1.1.1.1.1.1.1, h.1.1.1.2, h.1.1.2, h.1.2, h.2⟩
+
+theorem args_plain (sep : Char) (hsep : sep = ':' ∨ sep = '=') (l : ALabel) (h : l.WF) :
+    ∀ a ∈ l.args sep, a ≠ [] ∧ ∀ c ∈ a, Plain c := by
+  intro a ha
+  simp only [ALabel.args, List.mem_append, List.mem_map] at ha
+  rcases ha with ⟨x, hx, rfl⟩ | ⟨kv, hkv, rfl⟩
+  · obtain ⟨hc, hne⟩ := x.render_clean (h.pos_wf x hx)
+    exact ⟨hne, fun c hcm => plain_of_not_special c (hc c hcm)⟩
+  · refine ⟨by simp, ?_⟩
+    intro c hc
+    simp only [List.mem_append, List.mem_cons] at hc
+    rcases hc with h1 | rfl | h3
+    · exact plain_of_not_special c (h.key_clean kv hkv c h1)
+    · rcases hsep with rfl | rfl <;> (refine ⟨?_, ?_, ?_, ?_, ?_⟩ <;> decide)
+    · rcases kv.2.render_clean_except_bar (h.val_wf kv hkv) c h3 with rfl | h4
+      · refine ⟨?_, ?_, ?_, ?_, ?_⟩ <;> decide
+      · exact plain_of_not_special c h4
+
+theorem joinCS_mem (parts : List Str) (c : Char) (hc : c ∈ joinCS parts) : c = ',' ∨ c = ' ' ∨ ∃ p ∈ parts, c ∈ p := by
+  induction parts with
+  | nil => simp [joinCS] at hc
+  | cons t ts ih =>
+    cases ts with
+    | nil => exact Or.inr (Or.inr ⟨t, by simp, by simpa [joinCS] using hc⟩)
+    | cons u us =>
+      simp only [joinCS, List.mem_append, List.mem_cons] at hc
+      rcases hc with h | h | h | h
+      · exact Or.inr (Or.inr ⟨t, by simp, h⟩)
+      · exact Or.inl h
+      · exact Or.inr (Or.inl h)
+      · rcases ih (by simpa [joinCS] using h) with h' | h' | ⟨p, hp, hcp⟩
+        · exact Or.inl h'
+        · exact Or.inr (Or.inl h')
+        · exact Or.inr (Or.inr ⟨p, by simp [hp], hcp⟩)
+
+theorem lastParen_spec (a b : Str) (hb : '(' ∉ b) : lastParen (a ++ '(' :: b) = some a.length := by
+  simp only [lastParen, List.reverse_append, List.reverse_cons, List.append_assoc, List.singleton_append]
+  rw [dropWhile_all (fun c => c != '(') b.reverse _ (by intro x hx; simp at hx ⊢; intro e; exact hb (e ▸ hx))]
+  simp [List.dropWhile]
+
+theorem takeWhile_append_all {α} (p : α → Bool) (a b : List α) (h : ∀ x ∈ a, p x = true) :
+    (a ++ b).takeWhile p = a ++ b.takeWhile p := by
+  induction a with
+  | nil => rfl
+  | cons x xs ih => simp [List.takeWhile, h x (by simp), ih (fun y hy => h y (by simp [hy]))]
+
+theorem lex_render (sep : Char) (hsep : sep = ':' ∨ sep = '=') (l : ALabel) (h : l.WF) :
+    lex (l.render sep) = .ok ⟨l.role, l.name, joinCS (l.args sep)⟩ := by
+  have hbody : ∀ c ∈ joinCS (l.args sep), c ≠ '(' ∧ c ≠ '&' ∧ c ≠ '\n' ∧ c.toNat < 128 := by
+    intro c hc
+    rcases joinCS_mem _ c hc with rfl | rfl | ⟨p, hp, hcp⟩
+    · refine ⟨?_, ?_, ?_, ?_⟩ <;> decide
+    · refine ⟨?_, ?_, ?_, ?_⟩ <;> decide
+    · exact ((args_plain sep hsep l h p hp).2 c hcp).2
+  have hname : ∀ c ∈ l.name, c ≠ '(' ∧ c ≠ '&' ∧ c ≠ '\n' ∧ c.toNat < 128 := fun c hc => (plain_of_not_special c (h.name_clean c hc)).2
+  have hrole : roleChar l.role = '@' ∨ roleChar l.role = '~' := by cases l.role <;> simp [roleChar]
+  have hany : (l.render sep).any (fun c => c == '\n' || decide (c.toNat ≥ 128)) = false := by
+    rw [List.any_eq_false]
+    intro c hc
+    simp only [ALabel.render, List.mem_cons, List.mem_append, List.mem_singleton] at hc
+    have : c ≠ '\n' ∧ c.toNat < 128 := by
+      rcases hc with rfl | hc | rfl | hc | rfl | hc
+      · rcases hrole with e | e <;> (rw [e]; refine ⟨?_, ?_⟩ <;> decide)
+      · exact (hname c hc).2.2
+      · refine ⟨?_, ?_⟩ <;> decide
+      · exact (hbody c hc).2.2
+      · refine ⟨?_, ?_⟩ <;> decide
+      · simp at hc
+    simp [this.1]; omega
+  have hlast : (l.render sep).getLast? = some ')' := by
+    simp only [ALabel.render]
+    rw [show roleChar l.role :: (l.name ++ '(' :: (joinCS (l.args sep) ++ [')'])) =
+          (roleChar l.role :: (l.name ++ '(' :: joinCS (l.args sep))) ++ [')'] by simp]
+    exact List.getLast?_concat
+  have hstrip : strip (l.render sep) = l.render sep := by
+    apply strip_id _ (by simp [ALabel.render])
+    · intro c hc
+      simp only [ALabel.render, List.head?_cons, Option.some.injEq] at hc
+      rw [← hc]
+      rcases hrole with e | e <;> (rw [e]; decide)
+    · intro c hc
+      rw [hlast] at hc
+      cases hc; decide
+  simp only [lex]
+  rw [if_neg (by simp only [hany]; simp), hstrip, if_pos (by rw [hlast]; rfl)]
+  simp only [ALabel.render]
+  have hr : (roleChar l.role == '@' || roleChar l.role == '~') = true := by
+    rcases hrole with e | e <;> simp [e]
+  simp only [hr, if_true]
+  have hrun : (l.name ++ '(' :: (joinCS (l.args sep) ++ [')'])).takeWhile (fun c => !isSpace c) =
+      l.name ++ '(' :: (joinCS (l.args sep) ++ [')']).takeWhile (fun c => !isSpace c) := by
+    rw [takeWhile_append_all _ _ _ (fun c hc => by simp [h.name_nospace c hc])]
+    simp [List.takeWhile, isSpace]
+  have hno : '(' ∉ (joinCS (l.args sep) ++ [')']).takeWhile (fun c => !isSpace c) := by
+    intro hm
+    have := (List.takeWhile_sublist _).subset hm
+    simp only [List.mem_append, List.mem_singleton] at this
+    rcases this with h1 | h1
+    · exact (hbody _ h1).1 rfl
+    · exact absurd h1 (by decide)
+  rw [hrun, lastParen_spec _ _ hno]
+  have hlen : (l.name.length == 0) = false := by
+    cases hn : l.name with
+    | nil => exact absurd hn h.name_ne
+    | cons _ _ => simp
+  simp only [hlen, Bool.false_eq_true, if_false]
+  have hrole' : (if roleChar l.role == '@' then Role.constraint else Role.objective) = l.role := by
+    cases l.role <;> simp [roleChar]
+  rw [hrole']
+  simp
+
+/-! ### the round trip -/
+
+def ALabel.parsed (l : ALabel) (cls : String) : Parsed :=
+  ⟨l.role, cls, l.pos.map AAtom.val, l.kws.map (fun kv => (kv.1, kv.2.val))⟩
+
+/-- **parse ∘ render = id**: a label written from an abstract specification call (role, registered name,
+    positional values, keyword values; `:` or `=`) is read back as exactly that call -/
+theorem parse_render (reg : List (String × String)) (sep : Char) (hsep : sep = ':' ∨ sep = '=') (l : ALabel) (h : l.WF)
+    (cls : String) (hreg : lookupName reg l.name = some cls) :
+    fromLabel reg (l.render sep) = .ok (l.parsed cls) := by
+  simp only [fromLabel, lex_render sep hsep l h, bind, Except.bind, hreg]
+  have hargs : parseArgs (splitCS (joinCS (l.args sep))) = .ok l.items := by
+    by_cases hne : l.args sep = []
+    · have hp : l.pos = [] := by
+        have := congrArg List.length hne; simp [ALabel.args] at this; exact this.1
+      have hk : l.kws = [] := by
+        have := congrArg List.length hne; simp [ALabel.args] at this; exact this.2
+      simp [hne, joinCS, splitCS, parseArgs, parseArg, ALabel.items, hp, hk, bind, Except.bind, pure, Except.pure]
+    · rw [splitCS_joinCS _ hne (fun p hp => by
+        intro hc; exact ((args_plain sep hsep l h p hp).2 ',' hc).1 rfl)]
+      exact parseArgs_args sep hsep l h
+  rw [hargs]
+  simp only [ALabel.items]
+  rw [show l.pos.map (fun a => Arg.pos a.val) = (l.pos.map AAtom.val).map Arg.pos by simp]
+  rw [splitArgs_pos]
+  rw [show l.kws.map (fun kv => Arg.kw kv.1 kv.2.val) = (l.kws.map (fun kv => (kv.1, kv.2.val))).map (fun kv => Arg.kw kv.1 kv.2) by simp]
+  rw [splitArgs_kws _ _ _ (by simpa [List.map_map, Function.comp_def] using h.keys_nodup) (by simp)]
+  simp only [List.nil_append, pure, Except.pure, ALabel.parsed]
+  congr 2
+  rw [List.filter_eq_self]
+  intro e he
+  simp only [List.mem_map] at he
+  obtain ⟨kv, hkv, rfl⟩ := he
+  simpa using h.key_not_location kv hkv
+
+/-- `:` and `=` are interchangeable -/
+theorem colon_equals_same (reg : List (String × String)) (l : ALabel) (h : l.WF) (cls : String)
+    (hreg : lookupName reg l.name = some cls) : fromLabel reg (l.render ':') = fromLabel reg (l.render '=') := by
+  rw [parse_render reg ':' (Or.inl rfl) l h cls hreg, parse_render reg '=' (Or.inr rfl) l h cls hreg]
+
+/-- a rendered label contains no `&` -/
+theorem render_no_amp (sep : Char) (hsep : sep = ':' ∨ sep = '=') (l : ALabel) (h : l.WF) : '&' ∉ l.render sep := by
+  intro hm
+  simp only [ALabel.render, List.mem_cons, List.mem_append, List.mem_singleton] at hm
+  rcases hm with e | hm | e | hm | e | hm
+  · cases hl : l.role <;> simp [hl, roleChar] at e
+  · exact (plain_of_not_special _ (h.name_clean _ hm)).2.2.1 rfl
+  · exact absurd e (by decide)
+  · rcases joinCS_mem _ _ hm with e | e | ⟨p, hp, hcp⟩
+    · exact absurd e (by decide)
+    · exact absurd e (by decide)
+    · exact ((args_plain sep hsep l h p hp).2 _ hcp).2.2.1 rfl
+  · exact absurd e (by decide)
+  · simp at hm
+
+theorem mapM_ok {α β ε} (f : α → Except ε β) (g : α → β) (xs : List α) (h : ∀ x ∈ xs, f x = .ok (g x)) :
+    xs.mapM f = .ok (xs.map g) := by
+  induction xs with
+  | nil => rfl
+  | cons x xs ih =>
+    simp [List.mapM_cons, h x (by simp), ih (fun y hy => h y (by simp [hy])), bind, Except.bind, pure, Except.pure]
+
+/-- several specifications joined with `&` in one label are read back as the list of those calls, in order -/
+theorem parse_joined (reg : List (String × String)) (seps : ALabel → Char) (ls : List ALabel) (hne : ls ≠ [])
+    (h : ∀ l ∈ ls, l.WF ∧ (seps l = ':' ∨ seps l = '=')) (cls : ALabel → String)
+    (hreg : ∀ l ∈ ls, lookupName reg l.name = some (cls l)) :
+    listFromLabel reg (joinChar '&' (ls.map (fun l => l.render (seps l)))) = .ok (ls.map (fun l => l.parsed (cls l))) := by
+  simp only [listFromLabel]
+  rw [splitChar_joinChar '&' _ (by simpa using hne)]
+  · rw [List.mapM_map]  
+    exact mapM_ok _ _ ls (fun l hl => parse_render reg (seps l) (h l hl).2 l (h l hl).1 (cls l) (hreg l hl))
+  · intro p hp
+    simp only [List.mem_map] at hp
+    obtain ⟨l, hl, rfl⟩ := hp
+    exact render_no_amp _ (h l hl).2 l (h l hl).1
+
+/-! ### blanks around a (sub-)label are ignored -/
+
+theorem strip_surrounded (pre s post : Str) (hpre : ∀ c ∈ pre, isSpace c = true) (hpost : ∀ c ∈ post, isSpace c = true)
+    (hne : s ≠ []) (hh : ∀ c, s.head? = some c → isSpace c = false) (hl : ∀ c, s.getLast? = some c → isSpace c = false) :
+    strip (pre ++ s ++ post) = s := by
+  have h1 : lstrip (pre ++ s ++ post) = s ++ post := by
+    simp only [lstrip, List.append_assoc]
+    rw [dropWhile_all isSpace pre _ hpre]
+    cases s with
+    | nil => exact absurd rfl hne
+    | cons c cs => simp [List.dropWhile, hh c rfl]
+  rw [strip, h1, rstrip, List.reverse_append, dropWhile_all isSpace post.reverse _ (by simpa using hpost)]
+  have := strip_id s hne hh hl
+  obtain ⟨init, last, hil⟩ : ∃ init last, s = init ++ [last] :=
+    ⟨s.dropLast, s.getLast hne, (List.dropLast_concat_getLast hne).symm⟩
+  subst hil
+  have hls : isSpace last = false := hl last (by simp)
+  simp [List.dropWhile, hls]
+
+theorem lex_surrounded (pre s post : Str) (hpre : ∀ c ∈ pre, isSpace c = true ∧ c ≠ '\n' ∧ c.toNat < 128)
+    (hpost : ∀ c ∈ post, isSpace c = true ∧ c ≠ '\n' ∧ c.toNat < 128)
+    (hne : s ≠ []) (hh : ∀ c, s.head? = some c → isSpace c = false) (hl : ∀ c, s.getLast? = some c → isSpace c = false) :
+    lex (pre ++ s ++ post) = lex s := by
+  have hs : strip (pre ++ s ++ post) = strip s := by
+    rw [strip_surrounded pre s post (fun c hc => (hpre c hc).1) (fun c hc => (hpost c hc).1) hne hh hl, strip_id s hne hh hl]
+  have hany : (pre ++ s ++ post).any (fun c => c == '\n' || decide (c.toNat ≥ 128)) = s.any (fun c => c == '\n' || decide (c.toNat ≥ 128)) := by
+    have h1 : pre.any (fun c => c == '\n' || decide (c.toNat ≥ 128)) = false := by
+      rw [List.any_eq_false]; intro c hc; have := hpre c hc; simp [this.2.1]; omega
+    have h2 : post.any (fun c => c == '\n' || decide (c.toNat ≥ 128)) = false := by
+      rw [List.any_eq_false]; intro c hc; have := hpost c hc; simp [this.2.1]; omega
+    simp [List.any_append, h1, h2]
+  simp only [lex, hs, hany]
+
+/-- `@a & @b`: blanks around the `&` (or around a whole label) do not change what is read -/
+theorem fromLabel_surrounded (reg : List (String × String)) (pre s post : Str)
+    (hpre : ∀ c ∈ pre, isSpace c = true ∧ c ≠ '\n' ∧ c.toNat < 128)
+    (hpost : ∀ c ∈ post, isSpace c = true ∧ c ≠ '\n' ∧ c.toNat < 128)
+    (hne : s ≠ []) (hh : ∀ c, s.head? = some c → isSpace c = false) (hl : ∀ c, s.getLast? = some c → isSpace c = false) :
+    fromLabel reg (pre ++ s ++ post) = fromLabel reg s := by
+  simp only [fromLabel, lex_surrounded pre s post hpre hpost hne hh hl]
+
+/-! ### records -/
+
+theorem findLabel_label (f : Feature) (c : Char) (r : Str) (h : f.label = some (c :: r)) (hc : c = '@' ∨ c = '~') :
+    findLabel f = some (c :: r) := by
+  rcases hc with rfl | rfl <;> simp [findLabel, specLabel?, h]
+
+theorem specLabel_none (v : Option Str) (hv : ∀ c r, v = some (c :: r) → c ≠ '@' ∧ c ≠ '~') : specLabel? v = none := by
+  unfold specLabel?
+  split
+  · rename_i c r
+    have := hv c r rfl
+    simp [this.1, this.2]
+  · rfl
+
+theorem findLabel_none (f : Feature) (hl : ∀ c r, f.label = some (c :: r) → c ≠ '@' ∧ c ≠ '~')
+    (hn : ∀ c r, f.note = some (c :: r) → c ≠ '@' ∧ c ≠ '~') : findLabel f = none := by
+  simp only [findLabel, specLabel_none f.label hl, specLabel_none f.note hn]
+
+theorem fromFeatures_skip (reg : List (String × String)) (f : Feature) (fs : List Feature)
+    (h : f.type ≠ "misc_feature" ∨ findLabel f = none) : fromFeatures reg (f :: fs) = fromFeatures reg fs := by
+  rcases h with h | h
+  · simp [fromFeatures, h]
+  · by_cases ht : f.type = "misc_feature" <;> simp [fromFeatures, ht, h]
+
+/-- a specification-bearing feature contributes its specifications, located at the feature, in label order, before
+    those of the later features -/
+theorem fromFeatures_cons (reg : List (String × String)) (f : Feature) (fs : List Feature) (l : Str) (specs : List Parsed)
+    (cs os : List Located) (ht : f.type = "misc_feature") (hl : findLabel f = some l)
+    (hs : listFromLabel reg l = .ok specs) (hr : fromFeatures reg fs = .ok (cs, os)) :
+    fromFeatures reg (f :: fs) = .ok
+      ((specs.map (fun p => (⟨p, f.start, f.stop, f.strand⟩ : Located))).filter (·.spec.role == .constraint) ++ cs,
+       (specs.map (fun p => (⟨p, f.start, f.stop, f.strand⟩ : Located))).filter (·.spec.role == .objective) ++ os) := by
+  simp [fromFeatures, ht, hl, hs, hr, bind, Except.bind, pure, Except.pure]
+
+/-! ### the registry generated from the source -/
+
+/-- the documented shorthands resolve to the documented classes -/
 theorem registry_shorthands :
     ∀ p ∈ [("no", "AvoidPattern"), ("keep", "AvoidChanges"), ("change", "EnforceChanges"), ("insert", "EnforcePatternOccurence"),
            ("sequence", "EnforceSequence"), ("choice", "EnforceChoice"), ("cds", "EnforceTranslation"), ("gc", "EnforceGCContent"),
            ("use_best_codon", "MaximizeCAI"), ("match_codon_usage", "MatchTargetCodonUsage"), ("harmonize_rca", "HarmonizeRCA"),
            ("all_unique_kmers", "UniquifyAllKmers"), ("CodonOptimize", "CodonOptimize")],
       lookupName Gen.specRegistry p.1.toList = some p.2 := by decide
+
+/-- every class is registered under its own name as well -/
+theorem registry_class_names : ∀ e ∈ Gen.specRegistry, lookupName Gen.specRegistry e.2.toList = some e.2 := by decide
+
+/-! ### non-vacuity: a concrete documented label meets the hypotheses and is parsed as stated -/
+
+def exLabel : ALabel :=
+  ⟨.constraint, "no".toList, [.bare "BsaI_site".toList], [("strand".toList, .atom (.bare "both".toList))]⟩
+
+example : exLabel.render '=' = "@no(BsaI_site, strand=both)".toList := by decide
+example : fromLabel Gen.specRegistry "@no(BsaI_site, strand=both)".toList =
+    .ok ⟨.constraint, "AvoidPattern", [.str "BsaI_site".toList], [("strand".toList, .atom (.str "both".toList))]⟩ := by decide
+example : fromLabel Gen.specRegistry "~gc(40%, window:50)".toList =
+    .ok ⟨.objective, "EnforceGCContent", [.str "40%".toList], [("window".toList, .atom (.int 50))]⟩ := by decide
+example : formatAtom "1e-3".toList = .float "1e-3".toList ∧ formatAtom "'12'".toList = .str "12".toList ∧
+    formatAtom "e_coli -> h_sapiens".toList = .str "e_coli -> h_sapiens".toList := by decide
 
 end Dna.C16
